@@ -81,6 +81,7 @@ type Sched struct {
 	Overflow  bool
 	objVer    map[string]uint64
 	objHash   map[string]uint64
+	objIDs    map[uintptr]int
 }
 
 func mix(h uint64, xs ...uint64) uint64 {
@@ -402,18 +403,7 @@ func Run(bodies []func(), prefix []int, shared map[string]any, everWritten map[s
 	cur = s
 	defer func() { cur = nil }()
 	for _, t := range s.threads {
-		t := t
-		go func() {
-			<-t.resume
-			defer func() {
-				if p := recover(); p != nil {
-					t.Panic = p
-				}
-				t.state = tDone
-				s.parked <- t
-			}()
-			t.body()
-		}()
+		s.start(t)
 	}
 	prev := -1
 	var err error
@@ -493,6 +483,122 @@ func Run(bodies []func(), prefix []int, shared map[string]any, everWritten map[s
 		// release blocked goroutines is not possible; they stay parked (leaked) - acceptable for a failing execution
 	}
 	return ex, err
+}
+
+func (s *Sched) start(t *Thread) {
+	go func() {
+		<-t.resume
+		defer func() {
+			if p := recover(); p != nil {
+				t.Panic = p
+			}
+			t.state = tDone
+			s.parked <- t
+		}()
+		t.body()
+	}()
+}
+
+// Go is the instrumented go statement: under the scheduler fn becomes a new controlled thread
+// (enabled at once; it first runs when the scheduler picks it), otherwise a plain goroutine.
+func Go(fn func()) {
+	s := cur
+	if s == nil || s.running == nil {
+		go fn()
+		return
+	}
+	id := len(s.threads)
+	t := &Thread{ID: id, resume: make(chan struct{}), body: fn, pending: Op{Obj: fmt.Sprintf("thread:%d", id), Kind: "start"}}
+	s.threads = append(s.threads, t)
+	s.start(t)
+	s.point(Op{Obj: fmt.Sprintf("thread:%d", id), Write: true, Kind: "spawn"})
+}
+
+// Unsupported is the panic value for constructs the scheduler cannot own (the explorer reports
+// itself not applicable instead of reporting a violation).
+type Unsupported struct{ What string }
+
+func chanKey(ch any) uintptr { return reflect.ValueOf(ch).Pointer() }
+
+// ObjLabel names a synchronisation object allocated during an execution (wait group, channel) by the order of
+// first use in this execution: heap addresses differ from run to run, labels must not.
+func ObjLabel(kind string, p uintptr) string {
+	s := cur
+	if s == nil {
+		return fmt.Sprintf("%s:%x", kind, p)
+	}
+	if s.objIDs == nil {
+		s.objIDs = map[uintptr]int{}
+	}
+	id, ok := s.objIDs[p]
+	if !ok {
+		id = len(s.objIDs) + 1
+		s.objIDs[p] = id
+	}
+	return fmt.Sprintf("%s#%d", kind, id)
+}
+
+// Send is the instrumented channel send.
+func Send[T any](ch chan<- T, v T) {
+	s := cur
+	if s == nil || s.running == nil {
+		ch <- v
+		return
+	}
+	key := chanKey(ch)
+	label := ObjLabel("chan", key)
+	for {
+		s.point(Op{Obj: label, Write: true, Kind: "chan"})
+		select {
+		case ch <- v:
+			Unblock(key)
+			return
+		default:
+		}
+		if cap(ch) == 0 {
+			panic(Unsupported{"send on an unbuffered channel"})
+		}
+		Block(key, label)
+	}
+}
+
+func recv[T any](ch <-chan T) (T, bool) {
+	s := cur
+	if s == nil || s.running == nil {
+		v, ok := <-ch
+		return v, ok
+	}
+	key := chanKey(ch)
+	label := ObjLabel("chan", key)
+	for {
+		s.point(Op{Obj: label, Write: true, Kind: "chan"})
+		select {
+		case v, ok := <-ch:
+			Unblock(key)
+			return v, ok
+		default:
+		}
+		if cap(ch) == 0 {
+			panic(Unsupported{"receive on an unbuffered channel"})
+		}
+		Block(key, label)
+	}
+}
+
+// Recv1 and Recv2 are the instrumented channel receives (value; value and ok).
+func Recv1[T any](ch <-chan T) T         { v, _ := recv(ch); return v }
+func Recv2[T any](ch <-chan T) (T, bool) { return recv(ch) }
+
+// Close is the instrumented close.
+func Close[T any](ch chan<- T) {
+	s := cur
+	if s != nil && s.running != nil {
+		s.point(Op{Obj: ObjLabel("chan", chanKey(ch)), Write: true, Kind: "chan"})
+	}
+	close(ch)
+	if s != nil {
+		Unblock(chanKey(ch))
+	}
 }
 
 // Running returns the id of the thread that currently runs under the scheduler (-1 if none).
